@@ -102,6 +102,11 @@ def _task__setstate__(self: Task, state: dict[str, Any]) -> None:
     for key, value in state.items():
         value = immutable_param_value(key, value) if key in field_set else value
         object.__setattr__(self, key, value)
+    # Attributes derived by post_init() are not part of the pickled
+    # state, so they must be derived again (e.g. when the task is
+    # unpickled in a spawned subprocess).
+    if self._lt.orig_post_init is not None:
+        self._lt.orig_post_init(self)
 
 
 def task(*args,
